@@ -6,6 +6,7 @@ package main
 
 import (
 	"fmt"
+	"go/ast"
 	"go/constant"
 	"go/token"
 	"go/types"
@@ -1222,4 +1223,107 @@ func parsedNumberFitsRule(r *Report, p *Prog, rule string, pkgs ...string) {
 		}
 	}
 	r.floor(rule, "strconv.ParseUint/ParseInt calls in the version parsers", n, 4)
+}
+
+// doubleStepSites finds nested loops in which the inner loop advances the
+// outer loop's counter past the element it consumed and then breaks out, so
+// that the outer post statement advances it once more and an element is never
+// looked at: for i := ...; ...; i++ { ... for cond { use(x[i]); i++; if done { break } } }.
+type countedLoop struct{ outer, bad token.Pos }
+
+func doubleStepSites(p *Prog, pkgs ...string) []token.Pos {
+	var out []token.Pos
+	for _, l := range countedLoops(p, pkgs...) {
+		if l.bad.IsValid() {
+			out = append(out, l.bad)
+		}
+	}
+	return out
+}
+
+// countedLoops lists the for statements of the packages whose post statement
+// increments a variable, each with the position of an offending inner loop.
+func countedLoops(p *Prog, pkgs ...string) []countedLoop {
+	var out []countedLoop
+	for _, rel := range pkgs {
+		pk := p.pkg(rel)
+		if pk == nil {
+			continue
+		}
+		for _, f := range pk.Syntax {
+			ast.Inspect(f, func(n ast.Node) bool {
+				outer, ok := n.(*ast.ForStmt)
+				if !ok || outer.Post == nil {
+					return true
+				}
+				inc, ok := outer.Post.(*ast.IncDecStmt)
+				if !ok || inc.Tok != token.INC {
+					return true
+				}
+				id, ok := inc.X.(*ast.Ident)
+				if !ok {
+					return true
+				}
+				obj := pk.TypesInfo.Uses[id]
+				if obj == nil {
+					obj = pk.TypesInfo.Defs[id]
+				}
+				cl := countedLoop{outer: outer.Pos()}
+				defer func() { out = append(out, cl) }()
+				for _, st := range outer.Body.List {
+					inner, ok := st.(*ast.ForStmt)
+					if !ok || inner.Post != nil {
+						continue
+					}
+					incAt := -1
+					for k, s2 := range inner.Body.List {
+						if is, ok := s2.(*ast.IncDecStmt); ok && is.Tok == token.INC {
+							if x, ok := is.X.(*ast.Ident); ok && pk.TypesInfo.Uses[x] == obj {
+								incAt = k
+							}
+						}
+					}
+					if incAt < 0 {
+						continue
+					}
+					// a break of the inner loop after the increment
+					hasBreak := false
+					for _, s2 := range inner.Body.List[incAt+1:] {
+						ast.Inspect(s2, func(m ast.Node) bool {
+							switch x := m.(type) {
+							case *ast.ForStmt, *ast.RangeStmt, *ast.SwitchStmt, *ast.TypeSwitchStmt, *ast.SelectStmt, *ast.FuncLit:
+								return false
+							case *ast.BranchStmt:
+								if x.Tok == token.BREAK && x.Label == nil {
+									hasBreak = true
+								}
+							}
+							return true
+						})
+					}
+					// compensated by a decrement after the inner loop?
+					compensated := false
+					after := false
+					for _, s3 := range outer.Body.List {
+						if s3 == st {
+							after = true
+							continue
+						}
+						if after {
+							if is, ok := s3.(*ast.IncDecStmt); ok && is.Tok == token.DEC {
+								if x, ok := is.X.(*ast.Ident); ok && pk.TypesInfo.Uses[x] == obj {
+									compensated = true
+								}
+							}
+						}
+					}
+					if hasBreak && !compensated {
+						cl.bad = inner.Pos()
+					}
+				}
+				return true
+			})
+		}
+	}
+	return out
 }
